@@ -314,6 +314,58 @@ pub fn generate_c11(seed: u64, n: usize, emit: &mut dyn FnMut(String)) {
 	}
 }
 
+/// `dealloc <maxseq> <depth> <schema> <bytes>`: slice input, a target that stores nothing
+/// (`IgnoredAny`), allocations counted around the call
+pub fn run_alloc(line: &str) -> Result<String, String> {
+	let mut r = R::new(line);
+	let _ = r.tok()?;
+	let max_seq = r.n()?;
+	let depth = r.n()?;
+	let raw = r.schema()?;
+	let bytes = r.xb()?;
+	let schema = match build::to_schema_mut(&raw).freeze() {
+		Ok(s) => s,
+		Err(_) => return Ok("freeze-err".into()),
+	};
+	let mut config = serde_avro_fast::de::DeserializerConfig::new(&schema);
+	config.max_seq_size = max_seq;
+	config.allowed_depth = depth;
+	let mut st = serde_avro_fast::de::DeserializerState::with_config(
+		serde_avro_fast::de::read::SliceRead::new(&bytes),
+		config,
+	);
+	let before = crate::alloc_count::count();
+	let res: Result<serde::de::IgnoredAny, _> = serde::Deserialize::deserialize(st.deserializer());
+	let after = crate::alloc_count::count();
+	let mut rd = st.into_reader();
+	let left = std::io::BufRead::fill_buf(&mut rd).map(|b| b.len()).unwrap_or(0);
+	Ok(match res {
+		Ok(_) => format!("ok left {left} allocs={}", after - before),
+		Err(e) => {
+			if e.io_error().is_some() {
+				"err io".into()
+			} else {
+				"err custom".into()
+			}
+		}
+	})
+}
+
+pub fn generate_alloc(seed: u64, n: usize, emit: &mut dyn FnMut(String)) {
+	let mut rng = rng_from(seed, "de-alloc");
+	for i in 0..n {
+		let max_nodes = if i % 10 == 0 { 24 } else { 10 };
+		let schema = SchemaGen::new(&mut rng, max_nodes, false).gen_root();
+		for _ in 0..3 {
+			let mut bytes = vec![];
+			DatumGen { rng: &mut rng, schema: &schema, fancy_layout: true, nonminimal: 0.1 }.gen(0, 0, &mut bytes);
+			let mut w = W::default();
+			w.t("dealloc").n(1_000_000_000).n(64).schema(&schema).xb(&bytes);
+			emit(w.s);
+		}
+	}
+}
+
 pub fn run_one(
 	backend: &Backend,
 	max_seq: usize,
